@@ -251,7 +251,7 @@ def impl(name, unaries=(), streams=(), workers=1, maxc=1, maxs=1, without=None, 
     b = lambda v: 'TRUE' if v else 'FALSE'
     cfg = ('SPECIFICATION Spec\nCONSTANTS\n  Unaries = %s\n  Streams = %s\n  NWorkers = %d\n  MaxC = %d\n  MaxS = %d\n'
            '  Fixes = %s\n  EnvCancel = %s\n  EnvReadFail = %s\n  EnvStop = %s\n  EarlyReturn = %s\n'
-           '  AdvClient = %d\n  AdvServer = %d\nINVARIANTS %s\n'
+           '  AdvClient = %d\n  AdvServer = %d\n  AdvIds = {1}\nINVARIANTS %s\n'
            % (sset(unaries), sset(streams), workers, maxc, maxs, sset(fixes), b(cancel), b(readfail), b(stop), b(early),
               advc, advs, IMPL_INVS))
     d = dict(name='GoatImpl ' + name, spec='GoatImpl.tla', cfg=cfg, workers=tlc_workers, heap='12g', timeout=3000,
@@ -282,7 +282,14 @@ B_D6 = impl('Bug_D6', unaries=['u1'], stop=True, early=False, without='D6', expe
 B_D7S = impl('Bug_D7s', streams=['s1'], maxc=2, maxs=0, without='D7s', expect='Deadlock reached', tlc_workers=2)
 B_D7C = impl('Bug_D7c', streams=['s1'], maxc=1, maxs=2, cancel=True, without='D7c', expect='Deadlock reached', tlc_workers=4)
 
-for _p, _ms in {'C01': [M_U2], 'C02': [M_S1, B_D1, M_S1M2], 'C03': [M_S1, B_D4], 'C05': [M_U2, M_S1], 'C06': [M_S1, B_D4],
+M_ADVC3 = impl('AdvC3 (adversarial client: any 3 envelopes on one id, then it closes)', maxc=0, maxs=1, advc=3)
+M_ADVC4 = impl('AdvC4 (adversarial client: any 4 envelopes)', maxc=0, maxs=1, advc=4, tiers=['thorough'], tlc_workers=14)
+B_ADVC_D7S = impl('Bug_D7s under an adversarial client', maxc=0, maxs=0, advc=4, without='D7s', expect='Deadlock reached', tlc_workers=4)
+M_ADVS3U = impl('AdvS3u (adversarial server: any 3 envelopes to a unary call, then it closes)', unaries=['u1'], maxc=0, maxs=0, advs=3)
+M_ADVS3S = impl('AdvS3s (adversarial server: any 3 envelopes to a stream whose caller may cancel)', streams=['s1'], maxc=0, maxs=0, cancel=True, advs=3, tiers=['thorough'])
+B_ADVS_D7C = impl('Bug_D7c under an adversarial server', unaries=['u1'], maxc=0, maxs=0, advs=3, without='D7c', expect='Deadlock reached', tlc_workers=4)
+
+for _p, _ms in {'C12': [M_ADVC3, B_ADVC_D7S, M_ADVC4], 'C13': [M_ADVS3U, B_ADVS_D7C, M_ADVS3S], 'C01': [M_U2], 'C02': [M_S1, B_D1, M_S1M2], 'C03': [M_S1, B_D4], 'C05': [M_U2, M_S1], 'C06': [M_S1, B_D4],
                 'C07': [M_S1, B_D7C, M_S1M2], 'C09': [M_U2RF, B_D5, M_S1RF], 'C10': [M_S1STOP, M_U2STOP, B_D6],
                 'C11': [M_S1, B_D7S, B_D7C, M_S1U1], 'C14': [M_S1, M_U2]}.items():
     PROPS[_p]['models'] = list(PROPS[_p].get('models', [])) + _ms
